@@ -44,6 +44,11 @@ def inst_parents(cx, iid):
             inst.site(ak, l, "acknowledge: %s = %s" % (ps.split(".")[-1], v))
             if v != "None{}":
                 inst.violation(ak.path, "parent write in acknowledge", "acknowledge sets a parent to `%s`; it may only clear it" % v, at=ak.span_at(l))
+            else:
+                who = "arg1.window_parent_id" if ps == "arg1.window_parent_id" else ps
+                rx = r"(?:eq\(%s@Some\.0,arg1\.base_id\)|eq\(arg1\.base_id,%s@Some\.0\))" % (re.escape(who), re.escape(who))
+                cx.guard(inst, ak, [(l, "clear " + ps.split(".")[-1])], [[rx]], construct="parent cleared for another packet",
+                         why="a parent marker may be cleared only when the released packet is that parent; otherwise later packets stop waiting for an unacknowledged Reliable packet", checked_before=True)
         for ob in R.all_bodies():
             if ob.path in (b.path, ak.path) or "packet_sender::" not in ob.path or ob.path.endswith("::new"):
                 continue
@@ -237,6 +242,9 @@ def inst_readiness_siblings(cx, iid):
 
 
 def run(cx):
+    from props.shared import pipeline_presence, ack_processing_presence
+    pipeline_presence(cx, "C02.g")
+    ack_processing_presence(cx, "C02.h")
     inst_readiness_siblings(cx, "C02.f")
     inst_parents(cx, "C02.a")
     inst_delivery_guards(cx, "C02.b")
